@@ -167,6 +167,12 @@ func NewFloatFromString(typ *types.FloatType, s string) (*Float, error) {
 			}
 			f := float128ppc.NewFromBits(a, b)
 			x, nan := f.Big()
+			if !nan && !x.IsInf() {
+				// The value of a double-double is the exact sum of its two
+				// doubles; the 106 bits of precision of f.Big drop the low
+				// double when the exponents of the two are far apart.
+				x = ppcFP128Sum(math.Float64frombits(a), math.Float64frombits(b))
+			}
 			return &Float{Typ: typ, X: x, NaN: nan}, nil
 		// half (IEEE 754 half precision)
 		case strings.HasPrefix(s, "0xH"):
@@ -498,12 +504,16 @@ func (c *Float) Ident() string {
 			}
 			return fmt.Sprintf("0x%c%016X%016X", hexPrefix, math.Float64bits(math.Inf(sign)), 0)
 		}
-		f, acc := float128ppc.NewFromBig(c.X)
+		// The high double is the double nearest to the value, the low double
+		// what remains (computed exactly; float128ppc.NewFromBig rounds the
+		// value to 106 bits first).
+		high, _ := c.X.Float64()
+		rest := new(big.Float).SetPrec(ppcFP128Prec).Sub(c.X, new(big.Float).SetPrec(ppcFP128Prec).SetFloat64(high))
+		low, acc := rest.Float64()
 		if acc != big.Exact {
 			log.Printf("unable to represent floating-point constant %v of type %v exactly; please submit a bug report to llir/llvm with this error message", c.X, c.Typ)
 		}
-		a, b := f.Bits()
-		return fmt.Sprintf("0x%c%016X%016X", hexPrefix, a, b)
+		return fmt.Sprintf("0x%c%016X%016X", hexPrefix, math.Float64bits(high), math.Float64bits(low))
 	default:
 		panic(fmt.Errorf("support for floating-point kind %v not yet implemented", c.Typ.Kind))
 	}
@@ -535,4 +545,21 @@ func (c *Float) Ident() string {
 		}
 	}
 	return s
+}
+
+// ppcFP128Prec is a precision (in bits) at which the sum of any two finite
+// doubles is exact.
+const ppcFP128Prec = 2200
+
+// ppcFP128Sum returns the exact sum of the two doubles of a ppc_fp128 value.
+func ppcFP128Sum(high, low float64) *big.Float {
+	x := new(big.Float).SetPrec(ppcFP128Prec).SetFloat64(high)
+	if math.IsInf(low, 0) {
+		return x
+	}
+	x.Add(x, new(big.Float).SetPrec(ppcFP128Prec).SetFloat64(low))
+	if x.Sign() == 0 && math.Signbit(high) != x.Signbit() {
+		x.Neg(x)
+	}
+	return x
 }
